@@ -6,7 +6,8 @@ from .c05 import corpus_requests
 
 RULE = ("`entryvcd <vars> <realmap> <body>` (generated VCD) and `entryfile <path>` (corpus files of all three formats): the file is loaded through "
         "read_header_from_file+read_body, read_header+read_body over Cursor and over BufReader<File> (each with multi_thread on/off, with and without "
-        "a progress counter) and through simple::read_with_options / read_from_reader; hierarchy dump, body length, time table and every signal are "
+        "a progress counter), over BufReader::with_capacity(c, ..) for c in 1, 2, 3, 5, 16, 17, 33, 64, 100, 509, 4096 (a token / section marker / block header may straddle a refill) "
+        "and through simple::read_with_options / read_from_reader; GHW / FST / VCD files written from generated designs are included; hierarchy dump, body length, time table and every signal are "
         "compared pairwise (real code). For generated VCDs the Lean model answers with its three body-driver modes (mmap single, stream, multi). "
         "non-trivial = loads succeed; distinct = distinct requests")
 
@@ -30,6 +31,17 @@ def requests(ctx):
         rq.append(" ".join(["entryvcd"] + vcdgen.request("st", vars_, body).split(" ")[2:]))
     for f in corpus_files(quick):
         rq.append(f"entryfile {f}")
+    # GHW / FST / VCD files written from abstract designs (small: every buffered-reader capacity is tried on them)
+    import os
+    from . import ghwgen
+    gen_dir = os.path.join(ctx.work, "gen")
+    os.makedirs(gen_dir, exist_ok=True)
+    for k in range(25 if quick else 300):
+        _d, g, v, f, _e = ghwgen.gen_triple(rng, nitems=rng.choice([2, 5, 9]), nsteps=rng.choice([1, 4, 10]))
+        for ext, data in (("ghw", g), ("fst", f), ("vcd", v)):
+            p = os.path.join(gen_dir, f"e{k}.{ext}")
+            open(p, "wb").write(data)
+            rq.append(f"entryfile {p}")
     return rq
 
 
